@@ -298,8 +298,13 @@ def run_case(ctx, h, case, root):
         if line and " " not in line:
             undef.add(line)
     undef &= reach
-    allowed = UNDEF_WHITELIST | set(h.get("undefined_ok", []))
+    allowed = UNDEF_WHITELIST | set(h.get("undefined_ok", []) if h.get("undefined_ok") != "*" else [])
     bad = sorted(u for u in undef if u not in allowed and not u.startswith(("__CPROVER", "__builtin", "nondet_")))
+    if h.get("undefined_ok") == "*":
+        # the harness cuts the unit short (stated in its assumptions): callees
+        # behind the cut have no body; CBMC asserts "no body for callee" at
+        # every call of such a function, so reaching one is still reported
+        bad = []
     res["undefined"] = sorted(undef)
     if bad:
         res["detail"] = "closed-world check: reachable functions without body: %s" % bad
